@@ -692,6 +692,74 @@ let do_rc id ins outs =
     else verdict "rc" id "diff" tag (String.concat "; " (List.rev !problems))
   | _ -> verdict "rc" id "diff" "malformed-line" ""
 
+(* ---- engine config ----
+   cfg <id> <args> <setopt> => <E1> <file lines> <E2> <E3> <E4>   (hex; FAILED when the child exited non-zero) *)
+let do_cfg id ins outs =
+  match ins, outs with
+  | [_args; setopt], [e1; lines; e2; e3; e4] ->
+    let dec t = if t = "FAILED" then None else Some (string_of_bytes (bytes_of_token t)) in
+    let kv e = List.filter_map (fun p -> match String.index_opt p '=' with
+        | Some i -> Some (String.sub p 0 i, String.sub p (i+1) (String.length p - i - 1)) | None -> None) (String.split_on_char ';' e) in
+    let so = string_of_bytes (bytes_of_token setopt) in
+    let setkey = (let k = List.hd (String.split_on_char ' ' so) in
+                  let k = List.hd (String.split_on_char '=' k) in
+                  match k with "-debug" -> "debug" | "-log-queries" -> "log" | "-cache-size" -> "cache" | "-timeout" -> "timeout"
+                             | "-max-ttl" -> "maxttl" | "-mdns" -> "mdns" | "-bogus-priv" -> "bogus" | "-max-inflight-requests" -> "inflight"
+                             | "-discovery-dns" -> "ddns" | x -> x) in
+    let problems = ref [] and specs = ref [] in
+    (match dec e1, dec e2, dec e3, dec e4 with
+     | Some a, Some b, Some c, Some d ->
+       (* effective configuration: scalars, listen addresses, and the profile / forwarder chosen for every probe
+          (the printed profile/forwarder lists are a representation, not part of the effective configuration) *)
+       let eff e = List.filter (fun (k, _) -> k <> "profiles" && k <> "forwarders") (kv e) in
+       if eff a <> eff b then begin specs := "C17" :: !specs;
+         let ka = eff a and kb = eff b in
+         List.iter (fun (k, v) -> match List.assoc_opt k kb with Some v' when v' <> v -> problems := Printf.sprintf "%s: saved %s reloaded %s" k v v' :: !problems | _ -> ()) ka end;
+       if eff c <> eff d then begin specs := "C17" :: !specs; problems := "config set: saved and reloaded effective configurations differ" :: !problems end;
+       let kb = eff b and kd = eff d in
+       List.iter (fun (k, v) -> if k <> setkey then (match List.assoc_opt k kd with
+           | Some v' when v' <> v -> specs := "C17" :: !specs; problems := Printf.sprintf "config set %s changed %s: %s -> %s" setkey k v v' :: !problems
+           | _ -> ())) kb;
+       (* the stored lines, reloaded by the extracted generic store with string-level criteria, give the lists the implementation reports *)
+       (match dec lines with
+        | Some ls ->
+          let items = List.filter_map (fun l -> match String.index_opt l ' ' with
+              | Some i -> let n = String.sub l 0 i and v = String.sub l (i+1) (String.length l - i - 1) in
+                (match n with "listen" -> Some (Elem (O, bytes_tab.(0) :: [] |> fun _ -> List.init (String.length v) (fun k -> bytes_tab.(Char.code v.[k]))))
+                            | "profile" -> Some (Elem (S O, List.init (String.length v) (fun k -> bytes_tab.(Char.code v.[k]))))
+                            | "forwarder" -> Some (Elem (S (S O), List.init (String.length v) (fun k -> bytes_tab.(Char.code v.[k]))))
+                            | _ -> None)
+              | None -> None) (String.split_on_char '\n' ls) in
+          let cond s = (let s = string_of_bytes s in match String.index_opt s '=' with Some i -> Some (String.sub s 0 i) | None -> None) in
+          let same j x y = (match j with
+              | O -> x = y
+              | S O -> (match cond x, cond y with None, None -> true | Some a, Some b -> a = b | _ -> false)
+              | _ -> (match cond x, cond y with Some a, Some b -> a = b | None, None -> true | _ -> false)) in
+          let parse _ v = Some v in
+          let norm _ v = Some v in
+          let d0 = { scalars = []; lists = [[]; []; []] } in
+          (match load same parse norm d0 items with
+           | Some st ->
+             let str l = String.concat "," (List.map string_of_bytes l) in
+             let expect k = (match List.assoc_opt k (kv b) with Some v -> v | None -> "?") in
+             (match st.lists with
+              | [li; pr; fw] ->
+                if str li <> expect "listen" then problems := Printf.sprintf "listen: model %s impl %s" (str li) (expect "listen") :: !problems;
+                if str pr <> expect "profiles" then problems := Printf.sprintf "profiles: model %s impl %s" (str pr) (expect "profiles") :: !problems;
+                if str fw <> expect "forwarders" then problems := Printf.sprintf "forwarders: model %s impl %s" (str fw) (expect "forwarders") :: !problems
+              | _ -> ())
+           | None -> ())
+        | None -> ())
+     | Some _, None, _, _ -> specs := "C17" :: !specs; problems := "the saved configuration fails to load" :: !problems
+     | Some _, Some _, None, _ | Some _, Some _, _, None -> specs := "C17" :: !specs; problems := "config set / reload failed on a stored configuration" :: !problems
+     | None, _, _, _ -> ());
+    let tag = if dec e1 = None then "rejected" else "accepted" in
+    let detail = String.concat "; " (List.rev !problems) in
+    if !specs <> [] then verdict "cfg" id "spec:C17" tag detail
+    else if !problems = [] then verdict "cfg" id "ok" tag ""
+    else verdict "cfg" id "diff" tag detail
+  | _ -> verdict "cfg" id "diff" "malformed-line" ""
+
 let () =
   try
     while true do
@@ -706,6 +774,7 @@ let () =
       | "clist" :: id :: rest -> let (i, o) = split_arrow rest in do_clist id i o
       | "rhist" :: id :: rest -> let (i, o) = split_arrow rest in do_rhist id i o
       | "fault" :: id :: rest -> let (i, o) = split_arrow rest in do_fault id i o
+      | "cfg" :: id :: rest -> let (i, o) = split_arrow rest in do_cfg id i o
       | "rc" :: id :: rest -> let (i, o) = split_arrow rest in do_rc id i o
       | "storm" :: id :: rest -> let (i, o) = split_arrow rest in do_storm id i o
       | "listen" :: id :: rest -> let (i, o) = split_arrow rest in do_listen id i o
